@@ -56,7 +56,7 @@ class ResetStatisticalTest(BaseCallbackBatch):
         :type value: float
         :raises ValueError: Value error exception
         """
-        if value <= 0.0:
+        if not value > 0.0:
             raise ValueError("value must be greater than 0.")
         self._alpha = value
 
